@@ -158,11 +158,27 @@ pub fn handle(op: &str, a: &[&str]) -> Option<String> {
             let ker = gf2::kernel_gauss(cols);
             Some(show_vecs(&ker))
         }
-        ("gf2_lanczos", [nrows, ncols, data, ..]) => {
+        ("gf2_lanczos", [nrows, ncols, data, rest @ ..]) => {
+            // optional trailing tokens: a run counter (digits, ignored) and the verbosity
+            // `silent` (default) | `info` (the library default) | `verbose` | `debug`; messages go to stderr
+            let mut verbose = Verbosity::Silent;
+            for t in rest {
+                match *t {
+                    "silent" => verbose = Verbosity::Silent,
+                    "info" => verbose = Verbosity::Info,
+                    "verbose" => verbose = Verbosity::Verbose,
+                    "debug" => verbose = Verbosity::Debug,
+                    _ => {
+                        if !t.chars().all(|c| c.is_ascii_digit()) {
+                            return None;
+                        }
+                    }
+                }
+            }
             let cols = sparse_of(usize_of(ncols)?, data)?;
             let mat = SparseMat { k: usize_of(nrows)?, cols };
             let _ = vh::take_y();
-            let ker = gf2::kernel_lanczos(&mat, Verbosity::Silent);
+            let ker = gf2::kernel_lanczos(&mat, verbose);
             let y = vh::take_y()?;
             Some(format!("{} {}", show_vecs(&ker), show_words(&y)))
         }
